@@ -7,6 +7,7 @@ import (
 	"net"
 	"os"
 	"path/filepath"
+	"semaverif/engine/pool"
 	"time"
 
 	"github.com/semafind/semadb/cluster"
@@ -37,6 +38,15 @@ var portCounter int
 // (several worker processes allocate ports at the same time; asking the kernel
 // for "any free port" and releasing it again races between them).
 func FreePorts(n int) []int {
+	if pool.InNetNS() {
+		// a network namespace of its own: the same ports in every worker and every job, so that
+		// server names (and what routing hashes from them) do not depend on where a job runs
+		ports := make([]int, n)
+		for i := range ports {
+			ports[i] = 11001 + i
+		}
+		return ports
+	}
 	base := 10000 + (os.Getpid()%200)*100
 	var ports []int
 	for len(ports) < n {
